@@ -4,6 +4,7 @@ import (
 	"fmt"
 	"sort"
 	"strings"
+	"time"
 
 	"github.com/vicanso/pike/cache"
 	"github.com/vicanso/pike/config"
@@ -352,6 +353,52 @@ func init() {
 				}
 			}
 			st.States, st.Transitions, st.Nontrivial = st.Execs*5, st.Execs*5, st.Execs
+			st.NOutcomes = int(st.Execs)
+		}
+		// the answer to the purge request means the purge is done — also when the store is slow to delete
+		if c.Want("purge-acknowledged-means-done") && c.Shard == 1%c.NShards {
+			st := c.Stat("purge-acknowledged-means-done", "enumeration")
+			st.Bounds = "purge forms {cache named, cache parameter empty, no cache parameter} x store delete taking {0, 150 ms}: fetch, hit, purge over HTTP, then at once: store empty, next request a fetch"
+			cfg := env.BasicConfig(config.CacheConfig{Store: "fault://c18ack"})
+			for _, form := range []string{"c1", "", "\x00absent"} {
+				for _, slow := range []time.Duration{0, 150 * time.Millisecond} {
+					fs := env.NewFaultStore()
+					fs.Hook = func(op string, key []byte) {
+						if op == "delete" && slow > 0 {
+							time.Sleep(slow)
+						}
+					}
+					fs.Register("fault://c18ack")
+					e := getEnv(cfg, "c18-ack")
+					freshCaches(cfg)
+					vtime.Set(vtime.Base)
+					e.Respond = func(oc *env.OriginCall) env.OriginResp { return env.Cacheable(oc, 600, "p") }
+					e.Events()
+					e.Do(env.Req{URI: "/k", Rid: "r1"})
+					r2 := e.Do(env.Req{URI: "/k", Rid: "r2"})
+					st.Execs++
+					kase := map[string]interface{}{"form": strings.ReplaceAll(form, "\x00", ""), "delete_takes": slow.String()}
+					if r2.XStatus != "hit" || len(fs.Keys()) != 1 {
+						c.Violation("purge-acknowledged-means-done", "harness-not-cached", fmt.Sprintf("%s / %d records", r2.XStatus, len(fs.Keys())), nil, kase, nil)
+						continue
+					}
+					if err := env.AdminPurge(c.Shard, form, "GET a.com /k"); err != nil {
+						c.Violation("purge-acknowledged-means-done", "purge-error", err.Error(), nil, kase, nil)
+						continue
+					}
+					nkeys := len(fs.Keys())
+					e.Events()
+					r3 := e.Do(env.Req{URI: "/k", Rid: "r3"})
+					an := analyze(e.Events())
+					if r3.XStatus != "fetching" || len(an.Reqs["r3"].Calls) != 1 {
+						c.Violation("purge-acknowledged-means-done", "purged-entry-served-after-acknowledged-purge", fmt.Sprintf("purge form %q, store delete taking %v: the request sent right after the purge was acknowledged was labelled %s with %d origin contacts", kase["form"], slow, r3.XStatus, len(an.Reqs["r3"].Calls)), nil, kase, nil)
+					} else if nkeys != 0 {
+						c.Violation("purge-acknowledged-means-done", "persisted-copy-survives-purge", fmt.Sprintf("purge form %q, store delete taking %v: the store still held the record when the purge was acknowledged", kase["form"], slow), nil, kase, nil)
+					}
+					time.Sleep(slow + 20*time.Millisecond) // let a late delete finish before the next case re-registers the store
+				}
+			}
+			st.States, st.Transitions, st.Nontrivial = st.Execs*4, st.Execs*4, st.Execs
 			st.NOutcomes = int(st.Execs)
 		}
 		c.RunSched(c18Race(c, "purge-vs-fetch-nostore", false, vsched.Bounds{Preempt: pre, Tick: 0, Data: -1, Total: -1}))
